@@ -12,7 +12,7 @@
    BEGIN at quiescence".  For non-convex group scenarios progress is false under lazy stepping (known finding F21). *)
 From Coq Require Import ZArith List Bool Arith.
 Import ListNotations.
-From MV Require Import Time.Spec Sched.Timing Sched.Inv Sched.Init Sched.Wle Sched.Main Sched.Guards Sched.Final Sched.Live Sched.Progress Sched.Quiet Sched.NoLost Sched.Bound Static.Groups Static.Connect Static.Build Sched.Plane Sched.Link Sched.Certify.
+From MV Require Import Time.Spec Sched.Timing Sched.Inv Sched.Init Sched.Wle Sched.Main Sched.Guards Sched.Final Sched.Live Sched.Progress Sched.Quiet Sched.NoLost Sched.Bound Static.Groups Static.Connect Static.Build Sched.Plane Sched.Link Sched.Certify Sched.GenView Gen.SchedulerFns Sched.SchedTie.
 Open Scope Z_scope.
 
 Theorem C05_partial_never_progresses_backwards : forall st, static_ok st -> forall s e i,
@@ -113,3 +113,10 @@ Example C05_bound_nonvacuous :
   | Prepared st dt t anc => check_static sc t anc && check_static2 sc t && check_bound t && init_before_untilb (static_of sc t anc) = true
   | _ => False end.
 Proof. vm_compute. reflexivity. Qed.
+
+(* tie to the source: the progress rule advance_progress as regenerated from mosaik/scheduler.py on every run
+   (Gen/SchedulerFns.v) is the model's new_progress (outside real-time mode; from_world_time = 0 in every tier) *)
+Theorem C05_generated_advance_progress_is_the_model : forall st s i, (1 <= depth st i)%nat ->
+  advance_progress (view st s i) (nexts (s i)) (cur (s i)) None (until st) (mkI 1 1 (repeat 0 (depth st i))) = new_progress st s i.
+Proof. exact tie_advance_progress. Qed.
+Print Assumptions C05_generated_advance_progress_is_the_model.
